@@ -11,7 +11,9 @@ import (
 // C20 — TL primitives round-trip, 4-byte aligned, decode never panics.
 func init() {
 	register("C20", []string{"bin", "proto", "proto/codec", "crypto", "exchange"}, func(c *engine.Ctx) {
-		c.Explain("C20: (R3) every slice/index expression in the decode methods of bin.Buffer and in decodeString/decodeBytes is proven in range from dominating len-guards, callee success summaries and intervals.")
+		c.Explain("C20: (R1, writer/reader agreement) for strings and bytes the encoder's one-byte-length bound S, long-form marker M and length-byte shifts agree with the decoder's marker, rejection bound and shifts: S+1 = M = M' ≤ 255, S = S', shifts {8,16} on both sides. (R2, exhaustive over residues mod 4) nearestPaddedValueLength(l) − l ∈ [0,3] and the result is divisible by 4. (R3) every slice/index expression in the decode methods of bin.Buffer and in decodeString/decodeBytes is proven in range from dominating len-guards, callee success summaries and intervals.")
+		c.NotCover("value equality of doubles/NaN payloads; strings of 2^24 bytes and more (encoder truncates the 3-byte length, outside the stated bound)")
+		c20R1(c)
 		c20R2(c)
 		c20R3(c)
 	})
@@ -113,6 +115,110 @@ func residueCheck(c *engine.Ctx, rule, key string, fn *ssa.Function, sym *ssa.Pa
 }
 
 func itoa(n int64) string { return fmt.Sprint(n) }
+
+// c20R1: writer/reader agreement of the string/bytes length prefix. From each
+// encoder: the largest length S written in the one-byte form (branch constant)
+// and the marker byte M of the long form with the shifts of the three length
+// bytes; from each decoder: the marker M' that selects the long form, the shifts
+// it reassembles the length with and the bound S' above which a one-byte length
+// is rejected. Round trip needs S < M = M' ≤ 255, S = S' = M−1 and equal shifts.
+func c20R1(c *engine.Ctx) {
+	n := 0
+	for _, pr := range [][2]string{{"encodeString", "decodeString"}, {"encodeBytes", "decodeBytes"}} {
+		enc := c.MustFunc("C20.R1", "bin", pr[0])
+		dec := c.MustFunc("C20.R1", "bin", pr[1])
+		if enc == nil || dec == nil {
+			continue
+		}
+		n++
+		// encoder: branch on len(param) against a constant
+		S, M := int64(-1), int64(-1)
+		encShifts := map[int64]bool{}
+		engine.Instrs(enc, func(i ssa.Instruction) {
+			switch x := i.(type) {
+			case *ssa.If:
+				k := engine.Guard{If: x, Branch: true}.Cmp()
+				lc := engine.CallOf(k.X)
+				if lc == nil || engine.CalleeID(lc.Common()) != "builtin.len" {
+					return
+				}
+				v, isK := engine.ConstInt(k.Y)
+				if !isK {
+					return
+				}
+				switch k.Op.String() {
+				case "<=":
+					S = v
+				case "<":
+					S = v - 1
+				case ">":
+					S = v
+				case ">=":
+					S = v - 1
+				}
+			case *ssa.Store:
+				// constant non-zero byte written into the output: the long-form marker
+				if k, isK := engine.ConstInt(x.Val); isK && k != 0 {
+					if b, isB := x.Val.Type().Underlying().(interface{ Kind() int }); isB {
+						_ = b
+					}
+					if x.Val.Type().String() == "byte" || x.Val.Type().String() == "uint8" {
+						M = k
+					}
+				}
+			case *ssa.BinOp:
+				if x.Op.String() == ">>" {
+					if k, isK := engine.ConstInt(x.Y); isK {
+						encShifts[k] = true
+					}
+				}
+			}
+		})
+		Mp, Sp := int64(-1), int64(-1)
+		decShifts := map[int64]bool{}
+		engine.Instrs(dec, func(i ssa.Instruction) {
+			switch x := i.(type) {
+			case *ssa.If:
+				k := engine.Guard{If: x, Branch: true}.Cmp()
+				v, isK := engine.ConstInt(k.Y)
+				if !isK {
+					return
+				}
+				d := engine.Describe(k.X)
+				if k.Op.String() == "==" && d == "p:b[0]" {
+					Mp = v
+				}
+				if d == "p:b[0]" || d == "p:b[0]" {
+					switch k.Op.String() {
+					case ">":
+						Sp = v
+					case ">=":
+						Sp = v - 1
+					}
+				}
+			case *ssa.BinOp:
+				if x.Op.String() == "<<" {
+					if k, isK := engine.ConstInt(x.Y); isK {
+						decShifts[k] = true
+					}
+				}
+			}
+		})
+		sh := func(m map[int64]bool) string {
+			out := ""
+			for _, k := range []int64{8, 16, 24, 32} {
+				if m[k] {
+					out += itoa(k) + " "
+				}
+			}
+			return out
+		}
+		ok := S >= 0 && M == Mp && S == Sp && M == S+1 && M <= 255 && sh(encShifts) == "8 16 " && sh(decShifts) == "8 16 "
+		c.Check(ok, "C20.R1", pr[0]+"↔"+pr[1]+"/length-prefix-agreement", enc.Pos(),
+			"writer: one-byte form for len ≤ %d, long-form marker %d, shifts {%s}; reader: marker %d, rejects one-byte length > %d, shifts {%s}; round trip needs S+1 = M = M' ≤ 255, S = S' and the shifts {8 16} on both sides (a length equal to the marker written in the one-byte form is read back as a long string)", S, M, sh(encShifts), Mp, Sp, sh(decShifts))
+	}
+	c.Floor("C20.R1", 2, n)
+}
 
 func c20R2(c *engine.Ctx) {
 	fn := c.MustFunc("C20.R2", "bin", "nearestPaddedValueLength")
